@@ -7,7 +7,10 @@ require (
 	github.com/energomonitor/bisquitt v0.0.0
 )
 
-require github.com/pion/dtls/v2 v2.1.3 // indirect
+require (
+	github.com/pion/dtls/v2 v2.1.3 // indirect
+	gopkg.in/yaml.v3 v3.0.0-20210107192922-496545a6307b // indirect
+)
 
 replace github.com/energomonitor/bisquitt => /repo
 
